@@ -559,6 +559,23 @@ def check_path(ex, F, unit, sim, kind, r, res, known_classes):
             what, m = bad
             res.violations.append(mk_violation(ex, sim, unit, f'c01:retransmission-queue-does-not-cover-unacked:{pre["state"]}',
                                                'after the segment the retransmission queue no longer holds exactly the unacknowledged sequence space: ' + what, 'c01', model=m))
+    # ---------------- (c0) "the window the peer last advertised": when an acknowledgment is accepted (SND.UNA advanced to SEG.ACK), RFC 9293
+    # 3.10.7.4 makes SEG.WND the send window iff SND.WL1 < SEG.SEQ or (SND.WL1 = SEG.SEQ and SND.WL2 =< SEG.ACK).  Checked as a reference
+    # rule of its own, because the right-edge obligation below takes SND.WND from the implementation
+    if info['arr'] == 'Ok' and 'ACK' in flags and 'RST' not in flags and 'SYN' not in flags and pre['state'] in ('Established', 'FinWait1', 'FinWait2', 'CloseWait') and post['state'] == pre['state']:
+        _, _, fseq_, fack_, _, fwnd_, _, _, _ = info['forged']
+        res.obligations += 1
+        lt = lambda a, b: b_and(b_not(ex.binop('Eq', a, b, False)), ex.binop('Lt', ex.binop('Sub', b, a, False), Int(32, 0x80000000), False))     # a < b on the sequence circle
+        le = lambda a, b: ex.binop('Lt', ex.binop('Sub', b, a, False), Int(32, 0x80000000), False)
+        accepted = b_and(lt(pre['snd']['una'], fack_), le(fack_, pre['snd']['nxt']), ex.binop('Eq', post['snd']['una'], fack_, False))
+        should = b_or(lt(pre['snd']['wl1'], fseq_), b_and(ex.binop('Eq', pre['snd']['wl1'], fseq_, False), le(pre['snd']['wl2'], fack_)))
+        bad = b_and(accepted, should, b_not(ex.binop('Eq', post['snd']['wnd'], fwnd_, False)))
+        sat, m = ex.check_sat(bad)
+        if sat:
+            res.violations.append(mk_violation(ex, sim, unit, f'c17c:window-update-ignored:{pre["state"]}',
+                                               'an accepted acknowledgment that carries the newest window information (SND.WL1 < SEG.SEQ, or SND.WL1 = SEG.SEQ and SND.WL2 =< SEG.ACK) did not update SND.WND: '
+                                               'the endpoint keeps sending against a window the peer no longer advertises', 'c17c', model=m))
+            return
     # ---------------- (c) new data never goes beyond the right edge SND.UNA + SND.WND of the window last advertised
     if 'post2' in info:
         p2 = info['post2']
